@@ -11,7 +11,7 @@
    EVERY schedule, the repaired code (v0 = false). *)
 From SC Require Import Base.Prelude Resource.Impl Resource.Spec Resource.Pull Resource.ImplProofs
   Resource.Flat Resource.FlatProofs Resource.Judge Conc.Lts Conc.LtsProofs Conc.DeleteProofs Conc.FlatInst Conc.Judge
-  Conc.GenLts Conc.GenProofs Conc.LinSound Conc.AtomicDefs Gen.C02Atomic Conc.AtomicTable Conc.CfgLts Conc.CfgProofs Conc.CreatedProofs.
+  Conc.GenLts Conc.GenProofs Conc.LinSound Conc.AtomicDefs Gen.C02Atomic Conc.AtomicTable Conc.CfgLts Conc.CfgProofs Conc.CreatedProofs Conc.AgreesOk Conc.CfgRun.
 From Coq Require Import Sorted.
 
 Section C02.
@@ -319,21 +319,45 @@ Print Assumptions C02_two_adds_v0_refuted.
    16-core stress -- if C02_ok accepts it then a linearization EXISTS: a permutation of the calls
    that took effect, consistent with real-time precedence of the recorded stamps, on which the
    sequential reference returns every call's observed result and ends in the contents read at the end *)
-Theorem C02_checker_sound : forall c i vinit cinit hist fv fc,
-  hist_of_case c = Some (i, vinit, cinit, hist, fv, fc) -> C02_ok c = true ->
+Theorem C02_checker_sound : forall c rw i vinit cinit hist fv fc,
+  hist_of_case c = Some (rw, i, vinit, cinit, hist, fv, fc) -> C02_ok c = true ->
   forallb allowed_code (filter (fun h => is_write_call (h_call h)) hist) = true /\
-  exists order, linearization i (init_v vinit, init_c cinit) (effective hist) order fv fc.
+  exists order, linearization rw i (init_v vinit, init_c cinit) (effective hist) order fv fc.
 Proof. exact C02_ok_sound. Qed.
 
 (* and it rejects no linearizable history (stamps distinct, invocation before response) *)
-Theorem C02_checker_complete : forall i vinit cinit hist fv fc order,
+Theorem C02_checker_complete : forall rw i vinit cinit hist fv fc order,
   forallb allowed_code (filter (fun h => is_write_call (h_call h)) hist) = true ->
   keys_distinct (effective hist) = true ->
   (forall h, In h (effective hist) -> h_inv h <= h_resp h) ->
-  linearization i (init_v vinit, init_c cinit) (effective hist) order fv fc ->
-  linearizable_b i vinit cinit hist fv fc = true.
+  linearization rw i (init_v vinit, init_c cinit) (effective hist) order fv fc ->
+  linearizable_b rw i vinit cinit hist fv fc = true.
 Proof. exact linearizable_b_complete. Qed.
 Print Assumptions C02_checker_sound.
+
+(* ---------- forced schedules: the two halves of the verdict are tied (Conc/AgreesOk.v) ----------
+   If the implementation agreed with the transition system on a forced schedule (CaseSched / CaseCfg), the
+   independent checker accepts the history -- the linearization it finds is the witness order of
+   C02_linearizable, seen through the checker's own stamps (first / last schedule index of each thread).
+   forced_guard (computable from the case): no subscriber without backpressure; initial contents sorted by
+   id; every returned code is one the call can return (allowed_code); no check / validation of the run itself
+   answered Aborted for a Set / Update or Unavailable for a Delete (the checker reads those two codes as "lost
+   a race").  CaseGen (generated ids) is not covered: the guard is false there. *)
+Theorem C02_agrees_implies_ok : forall c, forced_guard c = true -> agrees c = true -> C02_ok c = true.
+Proof. exact agrees_implies_C02_ok. Qed.
+
+(* the one conjunct of forced_guard that runs the model follows from the PROGRAM TEXT (forced_guard_static: the
+   code of every WithExpectedCheck callback is not 10 for Set / Update / Add, not 14 for Delete, and no call
+   generates its id; validation answers 3 or 13 only): a guard that mentions neither the model nor the verdict *)
+Theorem C02_agrees_implies_ok_static : forall c, forced_guard_static c = true -> agrees c = true -> C02_ok c = true.
+Proof. exact agrees_implies_C02_ok_static. Qed.
+Print Assumptions C02_agrees_implies_ok_static.
+
+(* so verdict 2 ("model agrees, predicate fails") cannot occur on such a case *)
+Theorem C02_forced_verdict_never_2 : forall c, forced_guard c = true -> judge02 c <> 2.
+Proof. exact judge02_never_2. Qed.
+Print Assumptions C02_agrees_implies_ok.
+Print Assumptions C02_forced_verdict_never_2.
 Print Assumptions C02_checker_complete.
 
 (* ---------- the lock discipline that makes the model's steps atomic, on today's source ---------- *)
@@ -455,7 +479,22 @@ Section C02_configuration.
     - apply trans_rem_exact. exact H.
     - apply trans_rem_none.
   Qed.
+
+  (* ... and so does every RUN of it (Conc/CfgRun.v: run_rem executes a schedule with the remembering closure;
+     step_tr_trans: the parametrised step with the code's atomic step IS the step of Conc/Lts.v): for every
+     program and every schedule the state reached is the code's *)
+  Theorem C02_remembered_read_run_harmless_iff_exact :
+    forall (eqv : option (option M -> option M -> bool)) idfun v0 v1 (prog : list (call M writer rmask)) sched s,
+    match eqv with Some cmp => forall a b, cmp a b = true -> a = b | None => True end ->
+    run_rem m_eqb m_empty w_validate w_merge clock_at str_ltb idfun v0 v1 prog eqv sched s =
+    run m_eqb m_empty w_validate w_merge clock_at str_ltb idfun v0 v1 prog sched s.
+  Proof.
+    intros [cmp|] idfun v0 v1 prog sched s H.
+    - apply run_rem_exact. exact H.
+    - apply run_rem_none.
+  Qed.
 End C02_configuration.
+Print Assumptions C02_remembered_read_run_harmless_iff_exact.
 Print Assumptions C02_equivalence_plays_no_role.
 Print Assumptions C02_linearizable_configured.
 Print Assumptions C02_remembered_read_harmless_iff_exact.
@@ -477,14 +516,29 @@ Theorem C02_remembered_read_tolerance_refuted :
 Proof. exact trans_rem_tolerance_refuted. Qed.
 Print Assumptions C02_remembered_read_tolerance_refuted.
 
+(* the same as a RUN: stored 5, tolerance 3; T0 = Set 6 expecting 5, T1 = Set 7; schedule T0.read T1.read T1.save
+   T1.publish T0.save T0.publish.  The variant: both succeed and 6 is stored -- a history the checker rejects; the
+   code on the same schedule: T0 is Aborted, 7 stays *)
+Theorem C02_remembered_read_run_tolerance_refuted :
+  let s := f_run_rem (Some (CqTol Fa 3)) rem_prog rem_sched (Some (mkF 5 0 0)) in
+  let s' := f_run false None rem_prog rem_sched (Some (mkF 5 0 0)) [] in
+  map (@result_of fmsg) (st_pcs s) = [Some (OVal (inl (mkF 6 0 0))); Some (OVal (inl (mkF 7 0 0)))] /\
+  v_val (w_v (st_w s)) = Some (mkF 6 0 0) /\ st_stutter s = O /\
+  C02_ok (CaseSched None (Some (mkF 5 0 0)) [] rem_prog rem_sched
+                    [mkFO (Some (mkF 6 0 0)) 0; mkFO (Some (mkF 7 0 0)) 0] (Some (mkF 6 0 0)) [] [] [] []) = false /\
+  map (@result_of fmsg) (st_pcs s') = [Some (OLost 10); Some (OVal (inl (mkF 7 0 0)))] /\
+  v_val (w_v (st_w s')) = Some (mkF 7 0 0).
+Proof. exact run_rem_tolerance_refuted. Qed.
+Print Assumptions C02_remembered_read_run_tolerance_refuted.
+
 (* non-vacuity: the equivalence IS a parameter of the model.  A subscriber of a Value constructed with the
    tolerance 3 is not sent the write 5 -> 6, one of a Value without equivalence is; the write happened in both *)
 Example C02_nonvacuous_equivalence_is_configured :
   map (fun p => List.length (snd p))
-      (ob_vstreams (f_observe (mkCfg (Some (CqTol Fa 3))) None (Some (mkF 5 0 0)) [] eq_prog eq_sched)) = [1%nat] /\
+      (ob_vstreams (f_observe (mkCfg (Some (CqTol Fa 3)) None) None (Some (mkF 5 0 0)) [] eq_prog eq_sched)) = [1%nat] /\
   map (fun p => List.length (snd p))
-      (ob_vstreams (f_observe (mkCfg None) None (Some (mkF 5 0 0)) [] eq_prog eq_sched)) = [2%nat] /\
-  v_val (w_v (st_w (ob_state (f_observe (mkCfg (Some (CqTol Fa 3))) None (Some (mkF 5 0 0)) [] eq_prog eq_sched)))) = Some (mkF 6 0 0).
+      (ob_vstreams (f_observe (mkCfg None None) None (Some (mkF 5 0 0)) [] eq_prog eq_sched)) = [2%nat] /\
+  v_val (w_v (st_w (ob_state (f_observe (mkCfg (Some (CqTol Fa 3)) None) None (Some (mkF 5 0 0)) [] eq_prog eq_sched)))) = Some (mkF 6 0 0).
 Proof. exact equivalence_visible_to_subscribers. Qed.
 Example C02_nonvacuous_exact_equivalence : forall a b, interp_ceqv CqExact a b = true -> a = b.
 Proof. exact ceqv_exact_is_exact. Qed.
@@ -559,3 +613,22 @@ Example C02_nonvacuous_two_adds_fixed :
   map (@result_of fmsg) (st_pcs s) = [Some (OVal (inl (mkF 10 0 0))); Some (OLost 10)] /\
   final_list (w_c (st_w s)) = [("a"%string, mkF 10 0 0)].
 Proof. vm_compute. repeat split; reflexivity. Qed.
+
+(* the hypotheses of C02_agrees_implies_ok are met by a case with a lost race (the Aborted call is dropped
+   by the checker and is absent from the witness) *)
+Example C02_nonvacuous_agrees_implies_ok :
+  let c := CaseSched None (Some (mkF 5 0 0)) [] two_deltas [0; 1; 0; 1; 0]%nat
+                     [mkFO (Some (mkF 8 0 0)) 0; mkFO None 10] (Some (mkF 8 0 0)) [] [] [] [] in
+  forced_guard c = true /\ forced_guard_static c = true /\ agrees c = true /\ C02_ok c = true.
+Proof. vm_compute. repeat split; reflexivity. Qed.
+
+(* ... and the guard cannot simply be dropped: a Set whose reset mask names an unknown field is answered Internal (13)
+   by validation, in the model as in the code (agrees = true); the checker does not count 13 among the codes a Set can
+   return (allowed_code) and rejects the history -- the unguarded implication is REFUTED *)
+Definition bad_reset_wo := mkFWO None None (Some [Fbad]) None false None false None false None None false false false false.
+Theorem C02_agrees_implies_ok_unguarded_refuted :
+  let c := CaseSched None (Some (mkF 5 0 0)) [] [FSet (mkF 6 0 0) bad_reset_wo; FSet (mkF 7 0 0) plain_wo] [0; 1; 1; 1]%nat
+                     [mkFO None 13; mkFO (Some (mkF 7 0 0)) 0] (Some (mkF 7 0 0)) [] [] [] [] in
+  agrees c = true /\ C02_ok c = false /\ forced_guard c = false.
+Proof. vm_compute. repeat split; reflexivity. Qed.
+Print Assumptions C02_agrees_implies_ok_unguarded_refuted.
